@@ -143,31 +143,23 @@ Proof.
 Qed.
 
 (* ------------------------------------------------------------------ *)
-(* build_agglom does not terminate when the partition function merges nothing *)
+(* the OLD build_agglom loop (before /repo commit 001d170) does not terminate when the
+   partition function merges nothing *)
 Definition id_membership (l : list nset) : list nat := seq 0 (length l).
 
 Lemma agglom_round_id5 : agglom_round (sub_of_table []) id_membership (leaf_forest 5) = Some (leaf_forest 5).
 Proof. vm_compute. reflexivity. Qed.
 
-Theorem build_agglom_terminates_refuted :
+Theorem old_build_agglom_terminates_refuted :
   exists (memb_fn : list nset -> list nat) (n groupsize : nat),
     (forall l, length (memb_fn l) = length l) /\ groupsize >= 2 /\
-    forall fuel, build_agglom (sub_of_table []) memb_fn groupsize fuel n = None.
+    forall fuel, build_agglom_old (sub_of_table []) memb_fn groupsize fuel n = None.
 Proof.
   exists id_membership, 5, 4. split; [|split; [lia|]].
   - intros l. unfold id_membership. apply seq_length.
-  - assert (H : forall fuel, agglom_loop (sub_of_table []) id_membership 4 fuel (leaf_forest 5) = None).
+  - assert (H : forall fuel, agglom_loop_old (sub_of_table []) id_membership 4 fuel (leaf_forest 5) = None).
     { induction fuel as [|f IH]; [reflexivity|].
-      cbn [agglom_loop]. rewrite agglom_round_id5.
+      cbn [agglom_loop_old]. rewrite agglom_round_id5.
       change (Nat.ltb 4 (length (leaf_forest 5))) with true. cbn iota. exact IH. }
-    intros fuel. unfold build_agglom. now rewrite H.
-Qed.
-
-(* with the proposed repair the same oracle is harmless *)
-Example build_agglom_fixed_id5 :
-  exists t, build_agglom_fixed (sub_of_table []) id_membership 4 5 = Some t /\ Permutation (leaves t) (seq 0 5).
-Proof.
-  eexists. split; [vm_compute; reflexivity|].
-  apply NoDup_Permutation_bis; [repeat constructor; cbn; intuition lia|cbn; lia|].
-  intros x Hx. cbn in *. intuition.
+    intros fuel. unfold build_agglom_old. now rewrite H.
 Qed.
